@@ -213,6 +213,43 @@ def run(prog, chk):
                 detail = "fire-and-forget request: never waited for"
             chk.ob("R5.discarding-sink-awaited-at-once", f.qual, ok, "%s:%d" % (f.module.path, c.lineno), detail)
     chk.floor("R5", "requests issued with the discarding sink", n5, 3)
+    # every targeted wait _read_response(n) must be for a request issued in the same function: a number kept
+    # from an earlier call may already have been consumed (and dropped) by another request's wait
+    for f in prog.all_functions():
+        if f.module.name not in ("sftp_client", "sftp_file"):
+            continue
+        waits = [c for c in walk_no_defs(f.node) if M.is_call(c, attr="_read_response") and c.args]
+        if not waits:
+            continue
+        fl = Flow(prog, f, implicit=False)
+        for c in waits:
+            nodes = fl.cfg.node_containing(c)
+            a = c.args[0]
+            ok = False
+            src = "?"
+            if nodes and isinstance(a, ast.Name):
+                ds = fl.defs(a.id, nodes[0])
+                src = sorted(set(unparse(r) if r is not None else ("param" if d.kind == "entry" else "?") for (d, r) in ds))
+                ok = bool(ds) and all(r is not None and M.is_call(r, attr="_async_request") for (d, r) in ds)
+                if f.qual == "SFTPClient._read_response":
+                    ok = True
+            chk.ob("R5.waits-only-for-own-request", f.qual, ok, "%s:%d" % (f.module.path, c.lineno),
+                   "_read_response(%s) with %s <- %s" % (unparse(a), unparse(a), src))
+    # the prefetch wait loop leaves when an error was saved (C29-R3 shared): every status error reaches _saved_exception
+    ar = prog.func("SFTPFile._async_response")
+    fa = Flow(prog, ar, env={"t == CMD_STATUS": True})
+    save = fa.nodes(lambda x: x.kind == "stmt" and isinstance(x.ast, ast.Assign) and unparse(x.ast.targets[0]) == "self._saved_exception")
+    hs = [h for h in fa.cfg.nodes if h.kind == "except"]
+    ok = len(save) == 1 and len(hs) == 1 and hs[0].ast.type is not None and unparse(hs[0].ast.type) == "Exception" and \
+        fa.cfg.dominated([fa.cfg.exit.id], guard_nodes=[save[0].id], start=[hs[0].id])
+    chk.ob("R5.async-errors-end-prefetch-wait", "SFTPFile._async_response", ok, ar.loc,
+           "every error status (EOF included) is saved, so the prefetch wait loop's _check_exception can end the wait")
+    rp = prog.func("SFTPFile._read_prefetch")
+    fp = Flow(prog, rp, implicit=False)
+    rdn = [x for (x, k) in fp.nodes_with_call(attr="_read_response")]
+    cx = [x for (x, k) in fp.nodes_with_call(name="self._check_exception")]
+    ok = len(rdn) == 1 and len(cx) == 1 and fp.cfg.dominated([rdn[0].id], guard_nodes=[cx[0].id], start=[d for (d, l) in fp.cfg.succ[rdn[0].id]])
+    chk.ob("R5.prefetch-wait-checks-errors", "SFTPFile._read_prefetch", ok, rp.loc, "the wait loop re-raises saved errors after every response")
     rr = prog.func("SFTPClient._read_response")
     t = unparse(rr.node)
     chk.ob("R5.reader-loops-until-awaited", "_read_response", "while True" in t and "if num == waitfor" in t, rr.loc,
